@@ -39,6 +39,8 @@ type aplan struct {
 	DupMs int  `json:"dupms"` // gap before each duplicate
 	Wrong bool `json:"wrong"` // crafted reply with a wrong request ID sent immediately
 	Pad   int  `json:"pad"`   // bytes of padding appended to every reply payload of this attempt (large responses)
+	PadTo int  `json:"padto"` // if > 0: the reply payload is padded to exactly this many bytes (encoder size boundaries)
+	ErrRe bool `json:"errre"` // the handler answers with an ERROR response (w.Error) whose text is the tagged payload
 }
 
 type callPlan struct {
@@ -70,14 +72,15 @@ type callRec struct {
 }
 
 type batchRec struct {
-	K          string `json:"k"`
-	Batch      int    `json:"batch"`
-	Kind       string `json:"kind"`
-	Calls      int    `json:"calls"`
-	Pending    int    `json:"pending"`      // requester len(resCh) after all calls returned and late replies drained
-	PendingRsp int    `json:"pending_resp"` // responder side
-	Hang       bool   `json:"hang"`
-	Completed  int    `json:"completed"`
+	K           string `json:"k"`
+	Batch       int    `json:"batch"`
+	Kind        string `json:"kind"`
+	Calls       int    `json:"calls"`
+	Pending     int    `json:"pending"`      // requester len(resCh) after all calls returned and late replies drained
+	PendingRsp  int    `json:"pending_resp"` // responder side
+	Hang        bool   `json:"hang"`
+	StatsStable bool   `json:"stats_stable"` // the per-response statistics stopped changing before they were read
+	Completed   int    `json:"completed"`
 }
 
 type responder struct {
@@ -111,6 +114,10 @@ func (r *responder) handler(w p2p.ResponseWriter, req *p2p.Request) {
 			b = append(b, ':')
 			b = append(b, bytes.Repeat([]byte{'x'}, pl.Pad)...)
 		}
+		if pl.PadTo > len(b)+1 {
+			b = append(b, ':')
+			b = append(b, bytes.Repeat([]byte{'y'}, pl.PadTo-len(b))...)
+		}
 		return b
 	}
 	ctx := context.Background()
@@ -135,6 +142,10 @@ func (r *responder) handler(w p2p.ResponseWriter, req *p2p.Request) {
 			}
 		}()
 	}
+	if pl.ErrRe {
+		w.Error(errors.New(string(pay("N"))))
+		return
+	}
 	w.Write(pay("N"))
 }
 
@@ -145,6 +156,10 @@ func classify(data []byte, err error) (class, etxt string, pc, pa int, pk string
 			return "timeout", "", 0, 0, ""
 		case errors.Is(err, context.Canceled), errors.Is(err, context.DeadlineExceeded):
 			return "cancelled", "", 0, 0, ""
+		}
+		var k string
+		if n, _ := fmt.Sscanf(strings.ReplaceAll(err.Error(), ":", " "), "c%d a%d %s", &pc, &pa, &k); n == 3 {
+			return "ok", "apperr", pc, pa, k // an ERROR response produced by the remote handler for this request: a delivered response
 		}
 		return "other", err.Error(), 0, 0, ""
 	}
@@ -164,14 +179,18 @@ type env struct {
 	r        *responder
 }
 
-func newEnv(timeout time.Duration) *env {
+func newEnv(timeout time.Duration) *env { return newEnvLimited(timeout, 1<<30, 0) }
+
+// newEnvLimited: the REQUESTER's handler registration (which governs the responses it receives) uses the given rate limit
+// (limit <= 0: the package default of 100 messages / penalty 10).
+func newEnvLimited(timeout time.Duration, limit, penalty int) *env {
 	r := &responder{seen: map[int]int{}, ids: map[int][]string{}}
 	rsp, err := p2p.VerifC17NewNode(0, map[string]p2p.RPCHandler{proc: r.handler})
 	if err != nil {
 		panic(err)
 	}
 	r.node = rsp
-	req, err := p2p.VerifC17NewNode(timeout, map[string]p2p.RPCHandler{proc: func(w p2p.ResponseWriter, q *p2p.Request) {}})
+	req, err := p2p.VerifC17NewNodeLimited(timeout, map[string]p2p.RPCHandler{proc: func(w p2p.ResponseWriter, q *p2p.Request) {}}, limit, penalty)
 	if err != nil {
 		panic(err)
 	}
@@ -272,13 +291,42 @@ func runBatch(e *env, batch int, kind string, timeoutMs int, plans []callPlan, s
 	br.Pending = e.req.Pending(time.Second)
 	br.PendingRsp = e.rsp.Pending(time.Second)
 	e.r.mu.Lock()
+	// The acceptance statistics are read only once they are quiescent: a response handler that is still between decoding the
+	// message and reporting what it did with it would make "accepted = seen - unknown - duplicate" too large for a moment.
+	snapshot := func() map[string][3]int {
+		m := map[string][3]int{}
+		for i := range recs {
+			for _, id := range e.r.ids[recs[i].Plan.Call] {
+				a, b, c := e.req.ResponseStats(id)
+				m[id] = [3]int{a, b, c}
+			}
+		}
+		return m
+	}
+	stable := false
+	stats := snapshot()
+	for tries := 0; tries < 25 && !stable; tries++ {
+		time.Sleep(80 * time.Millisecond)
+		again := snapshot()
+		stable = len(again) == len(stats)
+		for id, v := range again {
+			if stats[id] != v {
+				stable = false
+			}
+		}
+		stats = again
+	}
+	br.StatsStable = stable
 	for i := range recs {
 		recs[i].Attempts = e.r.seen[recs[i].Plan.Call]
 		recs[i].Accepted, recs[i].Seen = []int{}, []int{}
 		for _, id := range e.r.ids[recs[i].Plan.Call] {
-			seen, unknown, dup := e.req.ResponseStats(id)
-			recs[i].Accepted = append(recs[i].Accepted, seen-unknown-dup)
-			recs[i].Seen = append(recs[i].Seen, seen)
+			v := stats[id]
+			recs[i].Accepted = append(recs[i].Accepted, v[0]-v[1]-v[2])
+			recs[i].Seen = append(recs[i].Seen, v[0])
+		}
+		if !stable {
+			recs[i].Accepted, recs[i].Seen = nil, nil // unusable
 		}
 		if recs[i].Class == "hang" {
 			br.Hang = true
@@ -446,6 +494,28 @@ func largePlans(base int) []callPlan {
 		mk(0, rp)
 	}
 	mk(1<<20+1, 1<<20+1)
+	// payloads of exactly 2^7, 2^14, 2^21 bytes and their neighbours (length-prefix size boundaries of the codec)
+	for _, n := range []int{1<<7 - 1, 1 << 7, 1<<7 + 1, 1<<14 - 1, 1 << 14, 1<<14 + 1, 1<<21 - 1, 1 << 21, 1<<21 + 1} {
+		cp := callPlan{Call: base + len(out) + 1, Strict: true}
+		for k := 0; k < nAtt; k++ {
+			cp.Attempts = append(cp.Attempts, aplan{PadTo: n})
+		}
+		out = append(out, cp)
+	}
+	return out
+}
+
+// seqPlans: n on-time calls issued one after the other (gapMs apart); every errEvery-th call is answered with an ERROR response.
+func seqPlans(n, gapMs, errEvery, base int) []callPlan {
+	nAtt := p2p.VerifC17MaxRetries + 1
+	var out []callPlan
+	for i := 0; i < n; i++ {
+		cp := callPlan{Call: base + i + 1, Strict: true, StartMs: i * gapMs}
+		for k := 0; k < nAtt; k++ {
+			cp.Attempts = append(cp.Attempts, aplan{ErrRe: errEvery > 0 && i%errEvery == errEvery-1})
+		}
+		out = append(out, cp)
+	}
 	return out
 }
 
@@ -532,6 +602,7 @@ func main() {
 	dlCalls := flag.Int("dlcalls", 48, "concurrent calls per deadline round")
 	crRounds := flag.Int("cancelrace", 10, "rounds of the cancel-race batch (replies within microseconds of the cancellation + follow-up calls)")
 	doLarge := flag.Bool("large", true, "run the large-payload batch")
+	doLimits := flag.Bool("limits", true, "run the batches with the default rate limit / a zero penalty and with ERROR responses")
 	doShutdown := flag.Bool("shutdown", true, "run the shutdown scenarios (Connection.Stop with requests in flight)")
 	heldRounds := flag.Int("held", 3, "rounds of the held-lock batches (resMu held across the deadline / the cancellation)")
 	nflood := flag.Int("flood", 0, "goroutines flooding the requester with unknown-ID responses during the deadline / cancel-race rounds")
@@ -542,7 +613,7 @@ func main() {
 		os.Exit(2)
 	}
 	go func() { // global watchdog
-		time.Sleep(240 * time.Second)
+		time.Sleep(900 * time.Second)
 		fmt.Fprintln(os.Stderr, "c17: global watchdog expired")
 		os.Exit(3)
 	}()
@@ -635,6 +706,28 @@ func main() {
 		if br.Hang {
 			return
 		}
+		e.close()
+	}
+	if *doLimits {
+		// (a) the DEFAULT rate limit of the package on the requester: 60 solicited responses stay below it, all must be delivered;
+		// every 5th is an ERROR response of the remote handler
+		batch++
+		e := newEnvLimited(300*time.Millisecond, 0, 0)
+		recs, br := runBatch(e, batch, "default-limit", 300, seqPlans(60, 4, 5, batch*1000), 100, nil)
+		for _, rec := range recs {
+			o.Put(rec)
+		}
+		o.Put(br)
+		e.close()
+		// (b) a handler registered with limit 5 and penalty 0: more than 5 responses within the interval; the penalty is void, no
+		// response may be lost
+		batch++
+		e = newEnvLimited(300*time.Millisecond, 5, 0)
+		recs, br = runBatch(e, batch, "limit5-penalty0", 300, seqPlans(14, 8, 0, batch*1000), 100, nil)
+		for _, rec := range recs {
+			o.Put(rec)
+		}
+		o.Put(br)
 		e.close()
 	}
 	if *doShutdown {
